@@ -48,6 +48,74 @@ Definition law_step (opc res tid : Z) (before after : dump) (nbinds nevicts : Z)
 (* law of a discarded transaction: everything is back to the values before its first operation *)
 Definition law_discard (before after : dump) : bool := dump_sameb before after.
 
+(* law of a Commit step (theorem 6 on the dumps).  Per operation recorded in the committed
+   statement: kind (0 evict, 1 pipeline, 2 allocate), task, whether the cache refused it,
+   the pre-eviction status, and whether the placement met the call sites' precondition
+   (Pending task on no node).  A refused bind leaves the task Pending, NodeName empty, off the
+   node it was placed on (off every node under the precondition); an accepted one is Binding,
+   still on its node and logged; a refused eviction leaves the victim in its pre-eviction
+   status on its node and is not logged; an accepted one is logged and the task unchanged;
+   a pipeline is left alone; the binder / evictor saw exactly the accepted operations; the
+   handler shares moved by exactly the requests of the rolled-back operations. *)
+Record cop := mkCop { c_kind : Z; c_tid : positive; c_refused : bool; c_prev : status; c_pre : bool }.
+Definition dCop : dec cop :=
+  let* k := dZ in let* t := dPos in let* r := dBool in let* p := dStatus in let* q := dBool in ret (mkCop k t r p q).
+
+Definition job_known (d : dump) (t : task) : bool := bool_decide (is_Some (d_jobs d !! t_job t)).
+Definition held_or_gone (d : dump) (nid tid : positive) (want : option status) : bool :=
+  match d_nodes d !! nid with
+  | Some n => match n_tasks n !! tid, want with
+              | Some c, Some st => bool_decide (t_status c = st)
+              | Some _, None => true
+              | None, _ => false
+              end
+  | None => true
+  end.
+Definition not_held (d : dump) (nid tid : positive) : bool :=
+  match d_nodes d !! nid with Some n => bool_decide (n_tasks n !! tid = None) | None => true end.
+Definition on_none (d : dump) (tid : positive) : bool :=
+  gmap_allb (fun _ n => bool_decide (n_tasks n !! tid = None)) (d_nodes d).
+
+Definition law_commit_op (b a : dump) (binds : list (positive * option positive)) (evs : list positive) (o : cop) : bool :=
+  match d_heap b !! c_tid o, d_heap a !! c_tid o with
+  | Some tb, Some ta =>
+    if c_kind o =? 2 then
+      if c_refused o then
+        bool_decide (t_node ta = None) &&
+        (if job_known a ta then bool_decide (t_status ta = Pending) else true) &&
+        match t_node tb with Some nid => not_held a nid (c_tid o) | None => true end &&
+        (if c_pre o then on_none a (c_tid o) else true)
+      else
+        bool_decide ((c_tid o, t_node tb) ∈ binds) &&
+        (if job_known a ta then
+           bool_decide (t_status ta = Binding) && bool_decide (t_node ta = t_node tb) &&
+           match t_node tb with Some nid => held_or_gone a nid (c_tid o) None | None => true end
+         else bool_decide (t_node ta = None))
+    else if c_kind o =? 0 then
+      if c_refused o then
+        negb (bool_decide (c_tid o ∈ evs)) && bool_decide (t_node ta = t_node tb) &&
+        (if job_known a ta then bool_decide (t_status ta = restore_status (c_prev o)) else true) &&
+        match t_node tb with Some nid => held_or_gone a nid (c_tid o) (Some (t_status ta)) | None => true end
+      else bool_decide (c_tid o ∈ evs) && task_sameb tb ta
+    else task_sameb tb ta
+  | _, _ => false
+  end.
+
+Definition cop_req (d : dump) (k : positive) (want_kind : Z) (ops : list cop) : res :=
+  sum_req (omap (fun o => if (c_kind o =? want_kind) && c_refused o then
+                            match d_heap d !! c_tid o with
+                            | Some t => if bool_decide (t_job t = k) then Some t else None
+                            | None => None end
+                          else None) ops).
+
+Definition law_commit (ops : list cop) (b a : dump) (binds : list (positive * option positive)) (evs : list positive) : bool :=
+  forallb (law_commit_op b a binds evs) ops &&
+  Nat.eqb (length binds) (length (List.filter (fun o => (c_kind o =? 2) && negb (c_refused o)) ops)) &&
+  Nat.eqb (length evs) (length (List.filter (fun o => (c_kind o =? 0) && negb (c_refused o)) ops)) &&
+  forallb (fun k => res_eqvb (add (default empty_res (d_share a !! k)) (cop_req b k 2 ops))
+                             (add (default empty_res (d_share b !! k)) (cop_req b k 0 ops)))
+          (elements (dom (d_share a) ∪ dom (d_share b))).
+
 Definition entry (sel : Z) (toks : list Z) : list Z :=
   match sel with
   | 1 => match run_dec dCase toks with
@@ -73,6 +141,14 @@ Definition entry (sel : Z) (toks : list Z) : list Z :=
              flat_map (fun kv => Zpos (fst kv) :: eBool (node_okb (d_heap a) (snd kv))) (map_to_list (d_nodes a))
            | None => bad_input end
   | 102 => match run_dec (dPair dDump dDump) toks with
+           | Some (b, a) => eBool (law_discard b a)
+           | None => bad_input end
+  | 103 => match run_dec (let* ops := dList dCop in let* b := dDump in let* a := dDump in
+                          let* bs := dList (dPair dPos dNodeRef) in let* es := dList dPos in ret (ops, b, a, bs, es)) toks with
+           | Some (ops, b, a, bs, es) => eBool (law_commit ops b a bs es)
+           | None => bad_input end
+  (* a committed transaction all of whose operations the cache refused: everything is back *)
+  | 104 => match run_dec (dPair dDump dDump) toks with
            | Some (b, a) => eBool (law_discard b a)
            | None => bad_input end
   | _ => bad_input
